@@ -86,9 +86,10 @@ func (p *Cursor) ReadDigits() (string, error) {
 }
 
 func (p *Cursor) IsNext(s string) bool {
-	for i, exp := range s {
+	start := p.pos
+	for _, exp := range s {
 		if p.current() != exp {
-			p.Unread(i)
+			p.pos = start // not Unread(i): next() does not move at the last rune
 			return false
 		}
 		_ = p.next()
